@@ -61,7 +61,7 @@ def _run_unit(args):
     import importlib
     import signal
     t0 = time.time()
-    limit = UNIT_TIMEOUT_S or (600 if os.environ.get("VERIF_TIER", "quick") != "thorough" and "--tier thorough" not in " ".join(sys.argv) else 3600)
+    limit = _unit_limit()
 
     def _alarm(signum, frame):
         raise UnitTimeout(f"work unit exceeded {limit} s (engine limit, no verdict)")
@@ -84,17 +84,81 @@ def _run_unit(args):
             pass
 
 
+def _unit_limit():
+    return UNIT_TIMEOUT_S or (600 if os.environ.get("VERIF_TIER", "quick") != "thorough" and "--tier thorough" not in " ".join(sys.argv) else 3600)
+
+
+def _child(conn, job):
+    try:
+        conn.send(_run_unit(job))
+    except BaseException as e:  # noqa: BLE001
+        try:
+            conn.send({"ok": False, "error": f"{type(e).__name__}: {e}", "trace": traceback.format_exc(), "unit": f"{job[1]}{job[2]}", "wall": 0.0})
+        except Exception:  # noqa: BLE001
+            pass
+    finally:
+        conn.close()
+
+
 def run_units(modname, units, nproc=None):
-    """units: list of (function_name, args).  Returns (records, errors, unit_walls)."""
+    """units: list of (function_name, args).  Returns (records, errors, unit_walls).
+    Every unit runs in its own forked process; a unit that exceeds the wall-clock limit is killed (a
+    solver or term operation inside native code cannot be interrupted from Python) and reported as an
+    engine error - a limit of the engine, never a verdict."""
     nproc = nproc or NPROC
     jobs = [(modname, f, a) for (f, a) in units]
-    results = []
+    results = [None] * len(jobs)
     if nproc <= 1 or len(jobs) <= 1:
         results = [_run_unit(j) for j in jobs]
     else:
         ctx = mp.get_context("fork")
-        with cf.ProcessPoolExecutor(max_workers=min(nproc, len(jobs)), mp_context=ctx) as ex:
-            results = list(ex.map(_run_unit, jobs, chunksize=1))
+        limit = _unit_limit() + 30          # the in-process alarm comes first when it can
+        pending = list(range(len(jobs)))
+        running = {}                        # index -> (process, connection, start)
+        while pending or running:
+            while pending and len(running) < nproc:
+                i = pending.pop(0)
+                rd, wr = ctx.Pipe(duplex=False)
+                p = ctx.Process(target=_child, args=(wr, jobs[i]), daemon=True)
+                p.start()
+                wr.close()
+                running[i] = (p, rd, time.time())
+            done = []
+            for i, (p, rd, t0) in running.items():
+                try:
+                    if rd.poll(0):
+                        results[i] = rd.recv()
+                        done.append(i)
+                        continue
+                except (EOFError, OSError):
+                    results[i] = {"ok": False, "error": "work unit process ended without a result", "trace": "", "unit": f"{jobs[i][1]}{jobs[i][2]}", "wall": time.time() - t0}
+                    done.append(i)
+                    continue
+                if not p.is_alive():
+                    try:
+                        results[i] = rd.recv() if rd.poll(0.2) else None
+                    except (EOFError, OSError):
+                        results[i] = None
+                    if results[i] is None:
+                        results[i] = {"ok": False, "error": f"work unit process died (exit code {p.exitcode})", "trace": "", "unit": f"{jobs[i][1]}{jobs[i][2]}", "wall": time.time() - t0}
+                    done.append(i)
+                elif time.time() - t0 > limit:
+                    p.terminate()
+                    p.join(5)
+                    if p.is_alive():
+                        p.kill()
+                    results[i] = {"ok": False, "error": f"UnitTimeout: work unit exceeded {limit} s and was killed (engine limit, no verdict)", "trace": "",
+                                  "unit": f"{jobs[i][1]}{jobs[i][2]}", "wall": time.time() - t0}
+                    done.append(i)
+            for i in done:
+                p, rd, _t0 = running.pop(i)
+                try:
+                    rd.close()
+                except OSError:
+                    pass
+                p.join(1)
+            if not done:
+                time.sleep(0.02)
     records, errors, walls = [], [], []
     for r in results:
         walls.append((r["unit"], round(r["wall"], 2)))
